@@ -11,7 +11,7 @@ var roundingOps = map[string]bool{"math.LegacyDec.Mul": true, "math.LegacyDec.Qu
 	"math.LegacyDec.Power": true, "math.LegacyDec.RoundInt": true, "math.LegacyDec.Ceil": true, "math.LegacyDec.QuoRoundup": true, "math.LegacyDec.RoundInt64": true}
 
 func init() {
-	register(&Rule{ID: "C13.settle.arrive", Props: []string{"C13"}, Floor: 2,
+	register(&Rule{ID: "C13.settle.arrive", Props: []string{"C13", "C12"}, Floor: 4,
 		Doc: "every call that adds stake to a position is preceded on every path by a reward settlement of the same validator",
 		Run: func(e *Engine, r *RuleRun) {
 			for _, c := range e.CallersOf("keeper.Keeper.upsertDelegationWithNewTokens") {
@@ -29,6 +29,50 @@ func init() {
 					if argT(fa, s, 2).Eq(v) {
 						settles = append(settles, s)
 					}
+				}
+				// an existing position must be settled by its own claim (which records the current indices in the
+				// delegation), not merely by a validator-level settlement: every path that enters through the
+				// "delegation found" edge for this validator reaches the upsert only through ClaimDelegationRewards
+				var ownClaims []ssa.Instruction
+				for _, s := range CallsTo(fn, "keeper.Keeper.ClaimDelegationRewards") {
+					if argT(fa, s, 2).Eq(v) && argT(fa, s, 1).Eq(argT(fa, call, 1)) {
+						ownClaims = append(ownClaims, s)
+					}
+				}
+				checkedFound := false
+				for _, b := range fn.Blocks {
+					for i := range b.Succs {
+						g, ok := fa.EdgeFact(b, i)
+						if !ok || !g.Pos || g.Cond.Op != "extract" || g.Cond.Name != "1" || !g.Cond.Args[0].IsCall("keeper.Keeper.GetDelegation") {
+							continue
+						}
+						a := g.Cond.Args[0].CallArgsT()
+						va := a[3]
+						sameVal := (va.Op == "extract" && va.Args[0].IsCall("types.AllianceValidator.GetValAddress") && va.Args[0].CallArgsT()[0].Eq(v))
+						if !sameVal || !a[2].Eq(argT(fa, call, 1)) {
+							continue
+						}
+						succ := b.Succs[i]
+						if len(succ.Instrs) == 0 || !fa.blockReaches(succ, call.Block()) {
+							continue
+						}
+						checkedFound = true
+						via := ownClaims
+						var trail []string
+						if len(via) == 0 {
+							trail = []string{"no ClaimDelegationRewards for this position in the function"}
+						} else if first := succ.Instrs[0]; !containsInstr(via, first) {
+							trail = fa.MustPassThrough(first, call, via)
+						}
+						if trail != nil {
+							r.Bad(fk, "existing position on "+v.String()+" is settled by its own claim before it grows", "stake can be added to an existing position without ClaimDelegationRewards having recorded the validator's current indices in it (only the validator-level settlement ran): the next claim pays the whole index delta on the enlarged stake, i.e. rewards that accrued before the new stake arrived", trail, r.P(call))
+						} else {
+							r.OK(fk, "existing position on "+v.String()+" is settled by its own claim before it grows", "every path from `delegation found` to the upsert passes ClaimDelegationRewards", r.P(call))
+						}
+					}
+				}
+				if !checkedFound && fk != "keeper.Keeper.InitGenesis" {
+					r.Bad(fk, "existing position on "+v.String()+" is settled by its own claim before it grows", "no `delegation found` test for the position that receives stake", nil, r.P(call))
 				}
 				construct := "settle before adding stake to " + v.String()
 				if trail := fa.MustPassThrough(nil, call, settles); trail != nil || len(settles) == 0 {
